@@ -37,6 +37,7 @@ pub struct GenCfg {
     pub p_drop: u64,    // per packet per step, out of 1000
     pub p_dup: u64,     // out of 1000
     pub p_skip: u64,    // probability to skip a packet this step (reordering), out of 100
+    pub p_late: u64,    // probability per network step to keep a copy for a late duplicate, out of 1000
     pub step_us: u64,
     pub outages: Vec<(usize, usize, u64, u64)>, // src,dst,from,to (us)
     pub mfb: usize,
@@ -49,6 +50,8 @@ pub struct Gen {
     pub w: World,
     pub peers: Vec<Peer>,
     pub cfg: GenCfg,
+    /// late duplicates: (release time, dst, src, message text)
+    pub stash: Vec<(u64, usize, usize, String)>,
 }
 
 impl Gen {
@@ -97,6 +100,11 @@ impl Gen {
             p_drop: *rng.pick(&[0u64, 0, 0, 10, 50, 150, 300]),
             p_dup: *rng.pick(&[0u64, 0, 0, 20, 100]),
             p_skip: *rng.pick(&[0u64, 0, 10, 30]),
+            p_late: match family {
+                "three" | "death3" | "loss" | "lossack" | "late" => *rng.pick(&[0u64, 20, 60]),
+                "mix" | "death" | "spec" => *rng.pick(&[0u64, 0, 0, 20]),
+                _ => 0,
+            },
             step_us: *rng.pick(&[2000u64, 4000, 8000, 16000]),
             outages: vec![],
             mfb: *rng.pick(&[1usize, 2, 5, 10, 10, 30, 59]),
@@ -191,7 +199,7 @@ impl Gen {
     pub fn new(seed: u64, family: &str) -> Gen {
         let mut rng = Rng(seed);
         let cfg = Self::draw_cfg(&mut rng, family);
-        Gen { rng, ops: vec![], w: World::new(), peers: vec![], cfg }
+        Gen { rng, ops: vec![], w: World::new(), peers: vec![], cfg, stash: vec![] }
     }
 
     /// Creates the sessions: peers 1..=n (address = sid), spectators n+1.. attached to peer 1
@@ -333,6 +341,29 @@ impl Gen {
 
     /// One network step: every link gets a chance to move, drop or duplicate packets.
     pub fn net_step(&mut self) {
+        // late duplicates: UDP may deliver a copy of an old datagram much later
+        if self.cfg.p_late > 0 {
+            let now = self.w.now_us;
+            let due: Vec<(u64, usize, usize, String)> = self.stash.iter().filter(|e| e.0 <= now).cloned().collect();
+            self.stash.retain(|e| e.0 > now);
+            for (_, dst, src, text) in due {
+                let dst_alive = self.peers.iter().find(|p| p.sid == dst).map_or(false, |p| p.alive);
+                if dst_alive {
+                    self.emit(format!("inject {dst} {src} {text}"));
+                }
+            }
+            if self.rng.below(1000) < self.cfg.p_late {
+                let links: Vec<(usize, usize, usize)> = self.w.links().into_iter().filter(|l| l.2 > 0).collect();
+                if !links.is_empty() {
+                    let (src, dst, n) = *self.rng.pick(&links);
+                    let k = self.rng.below(n as u64) as usize;
+                    if let Some(text) = self.w.peek(src, dst, k) {
+                        let delay = 100_000 + self.rng.below(3_000_000);
+                        self.stash.push((now + delay, dst, src, text));
+                    }
+                }
+            }
+        }
         let links = self.w.links();
         for (src, dst, n) in links {
             if n == 0 {
